@@ -169,7 +169,7 @@ def render(fns):
         def prelude():
             parts = []
             if recv:
-                w(f"    let {'mut ' if recv == '&mut self' else ''}r = R{i} {{ id: rt::arg_u32(j) }};")
+                w(f"    let {'mut ' if recv == '&mut self' else ''}r = R{i} {{ id: (j % 2) as u32 }};")
                 parts.append('format!("{:?}", r)')
             for n, t, fn in args:
                 w(f"    let {n}: {t.replace('&str', 'String')} = rt::{fn}(j){'.to_string()' if t == '&str' else ''};")
